@@ -31,7 +31,8 @@ try:
         print("%s: existing tests %s" % (os.path.basename(patch), "PASS (361)" if ok else "FAIL: " + " ".join(t.split())[:200]), flush=True)
     for pid in ids:
         t0 = time.time()
-        p = subprocess.run([os.path.join(V, "check"), pid, "--tier", "quick"], cwd=V, env=env, capture_output=True, text=True)
+        p = subprocess.run([os.path.join(V, "check"), pid, "--tier", "quick"] + (["--seed", os.environ["VERIF_SEED"]] if os.environ.get("VERIF_SEED") else []),
+                           cwd=V, env=env, capture_output=True, text=True)
         lines = [l for l in p.stdout.splitlines() if l.startswith("VIOLATION")]
         concrete = [l for l in lines if "no-failing-input-found" not in l]
         tag = "quiet" if p.returncode == 0 else ("VIOLATION" if concrete else "NO-INPUT")
